@@ -34,7 +34,7 @@ SilMatches(ms, a) ==
     [] ms = "S3" -> Lbl[a].g = "2"
     [] ms = "S4" -> Lbl[a].sev # "crit" /\ Lbl[a].a = "y"
 \* route: one route, group_by [g]
-GroupKeyOf(a) == IF Lbl[a].g = "1" THEN "{}:{g=\"1\"}" ELSE "{}:{g=\"2\"}"
+GroupKeyOfP(a, prefix) == prefix \o ":{g=\"" \o Lbl[a].g \o "\"}"
 
 VARIABLES now,
           cfg,     \* [gw, gi, ri, sr (sequence of BOOLEAN), inhibit, windows (sequence)]
@@ -46,6 +46,8 @@ VARIABLES now,
           cancd,   \* [seen, dead, deadgk]: group ids seen; ids of groups of a stopped dispatcher; their group keys
           elig,    \* <<alert, integ>> -> instant since which it is continuously eligible, or -1
           chk      \* names of the property clauses violated by the last event
+
+GroupKeyOf(a) == GroupKeyOfP(a, cfg.gkp)
 
 ovars == <<now, cfg, ver, sil, last, brk, fl, cancd, elig, chk>>
 
@@ -79,6 +81,24 @@ SuppressedAt(a, t) == MutedAt(a, t) \/ InhibitedAt(a, t)
 Failing(i, t) == \E w \in SeqToSet(cfg.windows) : w.integ = i /\ w.kind # "slow" /\ w.from <= t /\ t < w.to
 FailingDuring(i, t0, t1) == \E w \in SeqToSet(cfg.windows) : w.integ = i /\ w.kind # "slow" /\ w.from <= t1 /\ t0 < w.to
 
+\* C15 gating: a flush is muted iff a mute interval contains its instant or, when active
+\* intervals are configured, none of them does.  The instant the stages use is the timer tick,
+\* which lags the actual flush by at most Timeout - group_interval when the previous flush
+\* overran: verdicts are demanded only where tick and flush fall on the same side of every edge.
+InAny(seq, t) == \E j \in 1..Len(seq) : seq[j].from <= t /\ t < seq[j].to
+TimeMuted(t) == InAny(cfg.mute, t) \/ (Len(cfg.active) > 0 /\ ~InAny(cfg.active, t))
+Edges == UNION {{cfg.mute[j].from, cfg.mute[j].to} : j \in 1..Len(cfg.mute)} \cup
+         UNION {{cfg.active[j].from, cfg.active[j].to} : j \in 1..Len(cfg.active)}
+Lag == Max2(cfg.gi, MinTimeout) + cfg.wait - cfg.gi + 1000
+EdgeNear(t) == \E b \in Edges : t - Lag <= b /\ b <= t
+MustMuted(t) == TimeMuted(t) /\ ~EdgeNear(t)
+\* the names the API reports for a group flushed at t: all active intervals when none of them
+\* holds, otherwise the mute intervals that hold
+MutedByAt(t) == IF Len(cfg.active) > 0 /\ ~InAny(cfg.active, t)
+                  THEN {cfg.active[j].name : j \in 1..Len(cfg.active)}
+                  ELSE {cfg.mute[j].name : j \in {x \in 1..Len(cfg.mute) : cfg.mute[x].from <= t /\ t < cfg.mute[x].to}}
+MayMuted(t)  == TimeMuted(t) \/ EdgeNear(t)
+
 \* the delivery slack of C01: a hung flush may hold the run loop until its
 \* deadline, one maximal retry back-off, scheduling slack
 \* cfg.wait: the cluster wait of this instance (position x peer_timeout) at this moment;
@@ -97,8 +117,8 @@ NamesOf(as)    == {as[i].l : i \in 1..Len(as)}
 Entry(as, a)   == as[CHOOSE i \in 1..Len(as) : as[i].l = a]
 
 -----------------------------------------------------------------------------
-ObsInit == /\ now = 0 /\ cfg = [gw |-> 0, gi |-> 1, ri |-> 1, integs |-> <<[name |-> "webhook/0", sr |-> TRUE]>>, inhibit |-> FALSE, windows |-> << >>, wait |-> 0, maxwait |-> 0]
-           /\ ver = << >> /\ sil = << >> /\ last = << >> /\ brk = << >> /\ fl = << >> /\ cancd = [seen |-> {}, dead |-> << >>, deadgk |-> {}, refl |-> {}, ing |-> << >>]
+ObsInit == /\ now = 0 /\ cfg = [gw |-> 0, gi |-> 1, ri |-> 1, integs |-> <<[name |-> "webhook/0", sr |-> TRUE]>>, inhibit |-> FALSE, windows |-> << >>, wait |-> 0, maxwait |-> 0, mute |-> << >>, active |-> << >>, gkp |-> "{}"]
+           /\ ver = << >> /\ sil = << >> /\ last = << >> /\ brk = << >> /\ fl = << >> /\ cancd = [seen |-> {}, dead |-> << >>, deadgk |-> {}, refl |-> {}, ing |-> << >>, mby |-> << >>]
            /\ elig = [p \in Alerts \X {"webhook/0"} |-> -1] /\ chk = {}
 
 \* eligibility clocks (C01), recomputed at every step for the new instant
@@ -108,6 +128,7 @@ Eligible(a, i, t, v, s) ==
   /\ ~(cfg.inhibit /\ Lbl[a].sev = "warn" /\
        \E x \in Alerts : Lbl[x].sev = "crit" /\ Lbl[x].g = Lbl[a].g /\ x \in DOMAIN v /\ t < v[x].end)
   /\ ~Failing(i, t)
+  /\ ~MayMuted(t)
 EligNext(t, v, s) ==
   [p \in Alerts \X Integs |->
      IF Eligible(p[1], p[2], t, v, s) THEN (IF p \in DOMAIN elig /\ elig[p] >= 0 THEN elig[p] ELSE t) ELSE -1]
@@ -124,7 +145,7 @@ C01_Deadline ==
 
 (* --- environment events ------------------------------------------------ *)
 Cfg(c) ==
-  /\ cfg' = c /\ now' = 0 /\ ver' = << >> /\ sil' = << >> /\ last' = << >> /\ brk' = << >> /\ fl' = << >> /\ cancd' = [seen |-> {}, dead |-> << >>, deadgk |-> {}, refl |-> {}, ing |-> << >>]
+  /\ cfg' = c /\ now' = 0 /\ ver' = << >> /\ sil' = << >> /\ last' = << >> /\ brk' = << >> /\ fl' = << >> /\ cancd' = [seen |-> {}, dead |-> << >>, deadgk |-> {}, refl |-> {}, ing |-> << >>, mby |-> << >>]
   /\ elig' = [p \in Alerts \X NamesOfIntegs(c.integs) |-> -1] /\ chk' = {}
 
 Ingest(a, v) ==
@@ -189,18 +210,33 @@ FlushBegin(ag, gk, as) ==
         \cup (IF \E a \in names \cap DOMAIN ver : Entry(as, a).upd = ver[a].upd /\ Entry(as, a).status = "firing" /\ ver[a].end < now
                 THEN {"C05_firing_after_end"} ELSE {})
         \cup (IF ag \in DOMAIN fl THEN {"C06_overlapping_flushes_of_one_group"} ELSE {})
+        \* the time stages come after the inhibition stage: a flush whose alerts are all inhibited
+        \* leaves the group's reported muted state as it was
+        \cup (IF names # {} /\ (\A a \in names \cap Alerts : InhibitedAt(a, now)) /\ gk \in DOMAIN cancd.mby
+                   /\ cancd.mby[gk].known /\ cancd.mby[gk].cur # MutedByAt(now)
+                THEN {"DRIFT_muted_state_not_refreshed_when_all_alerts_inhibited"} ELSE {})
         \* C06: a (re-)created group waits group_wait before its first flush, unless it holds an
         \* alert that started longer ago than that
         \cup (IF ag \notin cancd.seen /\ names # {} /\ gk \in DOMAIN cancd.ing /\ cancd.ing[gk] + cfg.gw > now
                    /\ \A a \in names : Entry(as, a).start + cfg.gw >= now
                 THEN {"C06_first_flush_before_group_wait"} ELSE {})
-  IN IF Dead(ag) THEN /\ chk' = {} /\ UNCHANGED <<now, cfg, ver, sil, last, brk, fl, cancd, elig>>
+  IN IF Dead(ag) THEN /\ chk' = {} /\ cancd' = [cancd EXCEPT !.mby = Drop(@, {gk})]
+                       /\ UNCHANGED <<now, cfg, ver, sil, last, brk, fl, elig>>
      ELSE
      /\ fl' = Put(fl, ag, [gk |-> gk, t |-> now, to |-> Timeout, alerts |-> as, att |-> [i \in Integs |-> NoAtt],
+                            tmust |-> TimeMuted(now), tmay |-> TimeMuted(now),
                             muted |-> {a \in names \cap Alerts : MutedAt(a, now)},
                             inhibited |-> {a \in names \cap Alerts : InhibitedAt(a, now)},
                             prevF |-> [i \in Integs |-> IF <<gk, i>> \in DOMAIN last THEN last[<<gk, i>>].firing ELSE {}]])
-     /\ cancd' = [cancd EXCEPT !.seen = @ \cup {ag}, !.refl = {a \in @ : GroupKeyOf(a) # gk}]
+     /\ cancd' = [cancd EXCEPT !.seen = @ \cup {ag}, !.refl = {a \in @ : GroupKeyOf(a) # gk},
+                                \* ing: the first hand-over for the group key since its last flush began
+                                !.ing = Drop(@, {gk}),
+                                !.mby = LET allInh == names # {} /\ \A a \in names \cap Alerts : InhibitedAt(a, now)
+                                            prev == IF gk \in DOMAIN @ THEN @[gk] ELSE [cur |-> {}, prev |-> {}, t |-> now, known |-> FALSE, stale |-> FALSE]
+                                        IN \* the time stages run after the inhibition stage: they are skipped
+                                           \* when that one leaves nothing (the marker keeps its old value)
+                                           IF allInh THEN Put(@, gk, [prev EXCEPT !.stale = prev.known /\ prev.cur # MutedByAt(now)])
+                                           ELSE Put(@, gk, [cur |-> MutedByAt(now), prev |-> prev.cur, t |-> now, known |-> TRUE, stale |-> FALSE])]
      /\ brk' = [k \in DOMAIN brk |->
                   brk[k] \/ (k[1] = gk /\ ~\E a \in FiringOf(as) : ~SuppressedAt(a, now))]
      /\ chk' = bad
@@ -236,6 +272,7 @@ Attempt(ag, gk, name, as, outcome, deadline, start) ==
         (IF NamesOf(as) \cap f.muted # {} THEN {"C02_silenced_alert_notified"} ELSE {})
         \cup (IF NamesOf(as) \cap f.inhibited # {} THEN {"C03_inhibited_alert_notified"} ELSE {})
         \cup (IF ~SrOf(i) /\ R # {} THEN {"C05_resolved_sent_without_send_resolved"} ELSE {})
+        \cup (IF f.tmust THEN {"C15_notification_during_mute_or_outside_active_interval"} ELSE {})
         \cup (IF gk # f.gk \/ \E a \in NamesOf(as) : a \notin NamesOf(f.alerts) \/ Entry(as, a).status # Entry(f.alerts, a).status
                 THEN {"C06_payload_not_from_flush"} ELSE {})
         \cup (IF \E a \in Expected(f, i) : a \notin NamesOf(as) THEN {"C06_payload_is_a_delta"} ELSE {})
@@ -276,7 +313,9 @@ NflogLog(gk, name, firing, resolved) ==
       f == fl[ag]
       at == f.att[i]
       skip == ~SrOf(i) /\ firing = {}
-      bad == IF i \notin Integs THEN {"C06_notification_to_unconfigured_integration"}
+      bad == IF i \notin Integs
+               THEN \* a flush the reload found in flight finishes its bookkeeping for the old integrations
+                    (IF gk \in cancd.deadgk THEN {} ELSE {"C06_notification_to_unconfigured_integration"})
              ELSE IF live = {} THEN (IF gk \in cancd.deadgk THEN {} ELSE {"C20_log_outside_flush"})
              ELSE (IF ~at.done /\ ~skip THEN {"C20_recorded_without_success"} ELSE {})
                   \cup (IF at.logged THEN {"C20_recorded_twice"} ELSE {})
@@ -296,7 +335,7 @@ FlushOk(ag) ==
 \* end of a flush: what was owed has been delivered, retries went on until the deadline
 FlushDone(ag) ==
   LET f == fl[ag]
-      accepting(i) == ~FailingDuring(i, f.t, now)
+      accepting(i) == ~FailingDuring(i, f.t, now) /\ ~f.tmay
       exp(i) == Expected(f, i)
       newFiring(i) == {a \in exp(i) : Entry(f.alerts, a).status = "firing"} \ f.prevF[i]
       entryExpired(i) == <<f.gk, i>> \in DOMAIN last /\ f.t - last[<<f.gk, i>>].t >= 2 * cfg.ri
@@ -326,8 +365,7 @@ FlushDone(ag) ==
   IN IF Dead(ag) THEN /\ chk' = {} /\ UNCHANGED <<now, cfg, ver, sil, last, brk, fl, cancd, elig>>
      ELSE /\ fl' = IF ag \in DOMAIN fl THEN Drop(fl, {ag}) ELSE fl
           /\ chk' = bad
-          /\ cancd' = IF ag \in DOMAIN fl THEN [cancd EXCEPT !.ing = Drop(@, {fl[ag].gk})] ELSE cancd
-          /\ UNCHANGED <<now, cfg, ver, sil, last, brk, elig>>
+          /\ UNCHANGED <<now, cfg, ver, sil, last, brk, cancd, elig>>
 
 \* the dispatcher is being stopped (config reload, shutdown): its groups die; a flush in
 \* progress is cancelled and a dying group may still run one more flush with a dead
@@ -336,7 +374,7 @@ Cancelling ==
   /\ cancd' = [seen |-> cancd.seen,
                dead |-> [x \in DOMAIN cancd.dead \cup cancd.seen \cup DOMAIN fl |->
                            IF x \in DOMAIN cancd.dead THEN cancd.dead[x] ELSE now],
-               deadgk |-> cancd.deadgk \cup {fl[x].gk : x \in DOMAIN fl}, refl |-> cancd.refl, ing |-> cancd.ing]
+               deadgk |-> cancd.deadgk \cup {fl[x].gk : x \in DOMAIN fl}, refl |-> cancd.refl, ing |-> cancd.ing, mby |-> cancd.mby]
   /\ fl' = << >>
   /\ chk' = {}
   /\ UNCHANGED <<now, cfg, ver, sil, last, brk, elig>>
@@ -350,7 +388,8 @@ Reloading(integs) ==
                deadgk |-> cancd.deadgk \cup {fl[x].gk : x \in DOMAIN fl}, refl |-> cancd.refl,
                \* the new dispatcher creates its groups from the provider's alerts right now
                ing |-> [g \in DOMAIN cancd.ing \cup {GroupKeyOf(a) : a \in DOMAIN ver} |->
-                          IF g \in DOMAIN cancd.ing THEN cancd.ing[g] ELSE now]]
+                          IF g \in DOMAIN cancd.ing THEN cancd.ing[g] ELSE now],
+               mby |-> cancd.mby]
   /\ fl' = << >>
   /\ cfg' = [cfg EXCEPT !.integs = integs]
   /\ elig' = [p \in Alerts \X NamesOfIntegs(integs) |-> IF p \in DOMAIN elig THEN elig[p] ELSE -1]
@@ -402,6 +441,14 @@ ApiGroups(list) ==
         \cup (IF \E i, j \in 1..Len(list) : i # j /\ list[i].g = list[j].g THEN {"C06_api_shows_two_groups_for_one_key"} ELSE {})
         \cup (IF \E a \in DOMAIN ver : FiringAt(a, now) /\ ~\E j \in 1..Len(list) : a \in SeqToSet(list[j].alerts)
            THEN {"C06_api_groups_miss_firing_alert"} ELSE {})
+        \* C15: the group is reported as muted, with the interval names, as of its last flush
+        \cup (IF \E j \in 1..Len(list) :
+                   LET gk == cfg.gkp \o ":{g=\"" \o list[j].g \o "\"}" IN
+                   /\ gk \in DOMAIN cancd.mby /\ cancd.mby[gk].known /\ ~cancd.mby[gk].stale
+                   /\ gk \notin DOMAIN cancd.ing
+                   /\ SeqToSet(list[j].mutedby) # cancd.mby[gk].cur
+                   /\ ~(cancd.mby[gk].t = now /\ SeqToSet(list[j].mutedby) = cancd.mby[gk].prev)
+                THEN {"C15_api_muted_state_differs"} ELSE {})
   IN /\ chk' = bad
      /\ UNCHANGED <<now, cfg, ver, sil, last, brk, fl, cancd, elig>>
 
